@@ -22,6 +22,7 @@ import (
 	"os/exec"
 	"path/filepath"
 	"sort"
+	"strings"
 	"sync"
 	"time"
 
@@ -372,6 +373,7 @@ func deliveries(tr *vutil.Trace, sc *scenario, from int, crashAt int) {
 		for _, t := range sc.Tree[cur-1].Txs {
 			service.GetTransactionPool().AddTransaction(txs[t])
 		}
+		tr.Emit(map[string]interface{}{"event": "Calling", "b": cur, "idx": i})
 		res := chain.AddBlockOnChain(copyBlock(blocks[cur]))
 		name, ok := resNames[res]
 		if !ok {
@@ -396,6 +398,7 @@ func childRun(args []string) {
 	vutil.BootChain(*dir, nil)
 	buildTree(sc)
 	tr := vutil.NewTrace(outAbs)
+	tr.AutoFlush = true
 	ev := treeEvent(sc)
 	ev["event"] = "Reset"
 	ev["state"] = project()
@@ -415,6 +418,7 @@ func childReopen(args []string) {
 	sc := loadScenario(*scen)
 	outAbs, _ := filepath.Abs(*out)
 	tr := vutil.NewTrace(outAbs)
+	tr.AutoFlush = true
 	if *crashAt > 0 {
 		count := 0
 		db.VerifOnWrite = func(op string, key []byte, size int) {
@@ -441,21 +445,41 @@ type job struct {
 	crash2  int
 }
 
-func runChild(self string, args ...string) int {
+// runChild runs a child process. Exit 0 and 77 (planned crash) are normal. Any other exit is
+// classified: a harness failure (HARNESS-ERROR printed) or a death of the real code (panic /
+// fatal error inside the node's own functions), returned as detail.
+func runChild(self string, args ...string) (code int, detail string, harness bool) {
 	cmd := exec.Command(self, args...)
 	cmd.Env = os.Environ()
 	outb, err := cmd.CombinedOutput()
 	if err == nil {
-		return 0
+		return 0, "", false
 	}
-	if ee, ok := err.(*exec.ExitError); ok {
-		if ee.ExitCode() != 77 {
-			fmt.Fprintf(os.Stderr, "child %v failed (%d):\n%s\n", args, ee.ExitCode(), string(outb[max(0, len(outb)-3000):]))
+	ee, ok := err.(*exec.ExitError)
+	if !ok {
+		vutil.Fatalf("exec child: %v", err)
+	}
+	if ee.ExitCode() == 77 {
+		return 77, "", false
+	}
+	out := string(outb)
+	if strings.Contains(out, "HARNESS-ERROR") {
+		fmt.Fprintf(os.Stderr, "child %v harness failure:\n%s\n", args, out[max(0, len(out)-2000):])
+		return ee.ExitCode(), "", true
+	}
+	for _, key := range []string{"panic: ", "fatal error: "} {
+		if i := strings.Index(out, key); i >= 0 {
+			d := out[i:]
+			if j := strings.Index(d, "\n"); j >= 0 {
+				d = d[:j]
+			}
+			if len(d) > 300 {
+				d = d[:300]
+			}
+			return ee.ExitCode(), d, false
 		}
-		return ee.ExitCode()
 	}
-	vutil.Fatalf("exec child: %v", err)
-	return -1
+	return ee.ExitCode(), "exit " + fmt.Sprint(ee.ExitCode()) + ": " + out[max(0, len(out)-200):], false
 }
 
 func max(a, b int) int {
@@ -525,16 +549,73 @@ func batch(args []string) {
 			sp := filepath.Join(base, "scen.json")
 			sb, _ := json.Marshal(sc)
 			os.WriteFile(sp, sb, 0644)
-			// uninterrupted run
-			d0 := filepath.Join(base, "plain")
-			t0 := filepath.Join(base, "plain.ndjson")
-			if code := runChild(self, "run", "--dir", d0, "--scen", sp, "--out", t0); code != 0 {
+			fail := func() {
 				mu.Lock()
 				failures++
 				mu.Unlock()
+			}
+			died := func(phase, detail string, sofar [][]byte) []byte {
+				var c struct {
+					B   int `json:"b"`
+					Idx int `json:"idx"`
+				}
+				for _, l := range sofar {
+					if bytes.Contains(l, []byte(`"event":"Calling"`)) {
+						json.Unmarshal(l, &c)
+					}
+				}
+				b, _ := json.Marshal(map[string]interface{}{"event": "Died", "phase": phase, "detail": detail, "b": c.B, "idx": c.Idx})
+				return b
+			}
+			// reopen runs a restart (+ the remaining deliveries); a death of the real code during
+			// the restart is an observation (RestartFailed), not a harness failure
+			reopen := func(dir, tfile string, from int, crashAt int) (lines [][]byte, code int, ok bool) {
+				args := []string{"reopen", "--dir", dir, "--scen", sp, "--out", tfile, "--from", fmt.Sprint(from)}
+				if crashAt > 0 {
+					args = append(args, "--crash-at", fmt.Sprint(crashAt))
+				}
+				code, detail, harness := runChild(self, args...)
+				if harness {
+					fail()
+					return nil, code, false
+				}
+				lines = readLines(tfile)
+				if code != 0 && code != 77 {
+					hasRestart := false
+					for _, l := range lines {
+						if bytes.Contains(l, []byte(`"event":"Restart"`)) {
+							hasRestart = true
+						}
+					}
+					ev := "RestartFailed"
+					if hasRestart {
+						ev = "Died"
+					}
+					b, _ := json.Marshal(map[string]interface{}{"event": ev, "phase": "recover", "detail": detail})
+					lines = append(lines, b)
+				}
+				return lines, code, true
+			}
+			// uninterrupted run
+			d0 := filepath.Join(base, "plain")
+			t0 := filepath.Join(base, "plain.ndjson")
+			code, detail, harness := runChild(self, "run", "--dir", d0, "--scen", sp, "--out", t0)
+			if harness {
+				fail()
 				return
 			}
 			lines := readLines(t0)
+			if code != 0 {
+				// the node died inside AddBlockOnChain on its own: record it, restart, go on
+				lines = append(lines, died("deliver", detail, lines))
+				l2, _, ok := reopen(d0, filepath.Join(base, "plain-b.ndjson"), len(sc.Order), 0)
+				if ok {
+					lines = append(lines, l2...)
+				}
+				emit(lines)
+				os.RemoveAll(d0)
+				return
+			}
 			emit(lines)
 			os.RemoveAll(d0)
 			if *crash == "none" {
@@ -547,41 +628,35 @@ func batch(args []string) {
 			for k := 1; k <= end.Writes; k++ {
 				dk := filepath.Join(base, fmt.Sprintf("c%03d", k))
 				t1 := filepath.Join(base, fmt.Sprintf("c%03d-a.ndjson", k))
-				code := runChild(self, "run", "--dir", dk, "--scen", sp, "--out", t1, "--crash-at", fmt.Sprint(k))
-				if code != 77 {
-					mu.Lock()
-					failures++
-					mu.Unlock()
+				code, detail, harness := runChild(self, "run", "--dir", dk, "--scen", sp, "--out", t1, "--crash-at", fmt.Sprint(k))
+				if harness {
+					fail()
 					os.RemoveAll(dk)
 					continue
 				}
 				l1 := readLines(t1)
+				if code != 77 {
+					l1 = append(l1, died("deliver", detail, l1))
+				}
 				var cr struct {
 					Idx int `json:"idx"`
 				}
 				json.Unmarshal(l1[len(l1)-1], &cr)
-				all := l1
-				if *crash == "double" {
+				if *crash == "double" && code == 77 {
 					// crash again before the j-th write of the recovery, for every j, each on its own copy
 					for j := 1; ; j++ {
 						dj := filepath.Join(base, fmt.Sprintf("c%03d-r%02d", k, j))
 						if err := exec.Command("cp", "-r", dk, dj).Run(); err != nil {
 							vutil.Fatalf("cp: %v", err)
 						}
-						t2 := filepath.Join(base, fmt.Sprintf("c%03d-r%02d-b.ndjson", k, j))
-						code2 := runChild(self, "reopen", "--dir", dj, "--scen", sp, "--out", t2, "--from", fmt.Sprint(cr.Idx), "--crash-at", fmt.Sprint(j))
-						if code2 != 77 {
+						l2, code2, ok := reopen(dj, filepath.Join(base, fmt.Sprintf("c%03d-r%02d-b.ndjson", k, j)), cr.Idx, j)
+						if !ok || code2 != 77 {
 							os.RemoveAll(dj)
-							break // recovery has fewer than j writes
+							break // recovery has fewer than j writes (or failed)
 						}
-						t3 := filepath.Join(base, fmt.Sprintf("c%03d-r%02d-c.ndjson", k, j))
-						if code3 := runChild(self, "reopen", "--dir", dj, "--scen", sp, "--out", t3, "--from", fmt.Sprint(cr.Idx)); code3 != 0 {
-							mu.Lock()
-							failures++
-							mu.Unlock()
-						} else {
-							tl := append(append(append([][]byte{}, l1...), readLines(t2)...), readLines(t3)...)
-							emit(tl)
+						l3, _, ok := reopen(dj, filepath.Join(base, fmt.Sprintf("c%03d-r%02d-c.ndjson", k, j)), cr.Idx, 0)
+						if ok {
+							emit(append(append(append([][]byte{}, l1...), l2...), l3...))
 							mu.Lock()
 							nCrash++
 							mu.Unlock()
@@ -589,14 +664,9 @@ func batch(args []string) {
 						os.RemoveAll(dj)
 					}
 				}
-				t2 := filepath.Join(base, fmt.Sprintf("c%03d-b.ndjson", k))
-				if code2 := runChild(self, "reopen", "--dir", dk, "--scen", sp, "--out", t2, "--from", fmt.Sprint(cr.Idx)); code2 != 0 {
-					mu.Lock()
-					failures++
-					mu.Unlock()
-				} else {
-					all = append(append([][]byte{}, all...), readLines(t2)...)
-					emit(all)
+				l2, _, ok := reopen(dk, filepath.Join(base, fmt.Sprintf("c%03d-b.ndjson", k)), cr.Idx, 0)
+				if ok {
+					emit(append(append([][]byte{}, l1...), l2...))
 					mu.Lock()
 					nCrash++
 					mu.Unlock()
